@@ -83,6 +83,9 @@ fn sources(tier: &str) -> Vec<Src> {
         if s.input.modules.iter().any(|(_, t)| t.contains("pub type u32 ")) {
             s.features.push("user_type_named_like_builtin".into());
         }
+        if s.input.modules.iter().any(|(p, t)| p == "a" && t.contains("extern type X;")) {
+            s.supply.push(("a.rs".into(), "#[repr(C)] #[derive(Clone, Copy, Default)] pub struct X(pub u32);\n".into()));
+        }
         out.push(s);
     }
     for i in checks::c08::all_inputs(tier).into_iter().step_by(if tier == "thorough" { 1 } else { 9 }) {
